@@ -1401,8 +1401,10 @@ func (n *Slicing) String() string {
 	if n.High != nil {
 		s += n.High.String()
 	}
-	if n.Max != nil {
+	if n.IsFull || n.Max != nil {
 		s += ":"
+	}
+	if n.Max != nil {
 		s += n.Max.String()
 	}
 	s += "]"
